@@ -35,7 +35,10 @@ ASSUMPTIONS = ["one stack (one lock directory) per command; locking enabled (hoo
                "default '__UPS_DB__' or an absolute path; with None or --nolocks takeLocks makes no call at all, checked separately)",
                "a process takes the lock once; signals (the SIGINT/SIGTERM handler takeLocks installs) are not delivered",
                "stack directory writable (the EACCES branch of takeLocks is not exercised)",
-               "related = one process started with the other's pid in EUPS_LOCK_PID; two children of one holder are unrelated"]
+               "related = one process started with the other's pid in EUPS_LOCK_PID; two children of one holder are unrelated",
+               "EUPS_LOCK_PID names a process that itself started without the variable (takeLocks never overwrites it, so every "
+               "descendant inherits the pid of the first locker); the theorems hold for arbitrary maps, the race classification "
+               "(D12a/b/c explain every violation) was explored for such flat maps only"]
 
 CORPUS = os.path.join(common.VERIF, "corpus", "C09")
 WORKERS = 6
@@ -316,8 +319,9 @@ def random_case(rng, n):
     for i in range(n):
         k = "E" if rng.random() < 0.5 else "S"
         lp = None
-        if i > 0 and rng.random() < 0.25:
-            lp = rng.randrange(i)
+        roots = [j for j in range(i) if procs[j]["lp"] is None]
+        if roots and rng.random() < 0.25:
+            lp = rng.choice(roots)          # EUPS_LOCK_PID always names a process that started without it (never overwritten)
         elif rng.random() < 0.04:
             lp = n + 1                      # stale EUPS_LOCK_PID: the ancestor is not among the lockers
         procs.append(P(k, lp=lp, tries=rng.choice([0, 0, 0, 1, 2]), explicit=rng.random() < 0.85))
@@ -341,7 +345,8 @@ def path_case(rng):
     procs = []
     for i in range(n):
         k = "E" if rng.random() < 0.55 else "S"
-        lp = rng.randrange(i) if (i > 0 and rng.random() < 0.2) else None
+        roots = [j for j in range(i) if procs[j]["lp"] is None]
+        lp = rng.choice(roots) if (roots and rng.random() < 0.2) else None
         path = rng.sample(range(nd), rng.randint(1, nd))
         if rng.random() < 0.5:
             path.sort()
@@ -373,7 +378,8 @@ def phase_case(rng):
     procs = []
     for i in range(n):
         k = "E" if rng.random() < 0.45 else "S"
-        lp = rng.randrange(i) if (i > 0 and rng.random() < 0.35) else None
+        roots = [j for j in range(i) if procs[j]["lp"] is None]
+        lp = rng.choice(roots) if (roots and rng.random() < 0.35) else None
         procs.append(P(k, lp=lp, tries=rng.choice([0, 0, 1]), explicit=rng.random() < 0.85))
     phases, started, released = [], set(), set()
     for _ in range(rng.randint(n, 2 * n)):
@@ -544,7 +550,7 @@ def run(ctx):
 
 
 def replay(ctx, rp):
-    c = rp["input"]
+    c = rp.get("input") or rp          # a replay file, or a corpus witness
     case = {"procs": c["procs"], "sched": c["sched"], "base": c.get("base", "default"), "drain": True}
     if "ndirs" in c:
         case["ndirs"] = c["ndirs"]
